@@ -495,22 +495,59 @@ func c17SessionSubstitutes(r *Run) {
 	// the stored File is what was opened
 	cr := p.Fn("p9p:(*session).Create")
 	if cr != nil {
+		// (the open may sit in a helper of Create handed the new entry, with the is-directory test at the call site)
+		isDirCond := func(nc Cond) bool {
+			c, ok := nc.V.(*ssa.Call)
+			return ok && calleeName(&c.Call) == "p9p.IsDir" && nc.Truth
+		}
+		isCreated := func(v ssa.Value) bool {
+			ex, isEx := stripConv(v).(*ssa.Extract)
+			if !isEx || ex.Index != 0 {
+				return false
+			}
+			cc, isC := ex.Tuple.(*ssa.Call)
+			return isC && cc.Call.IsInvoke() && cc.Call.Method.Name() == "Create"
+		}
 		ok := false
-		for _, c := range findCalls(cr, "p9p.openLocked") {
-			if isDirEdge(c, true) {
-				ok = true
+		type site struct {
+			c *ssa.Call
+			f *ssa.Function
+		}
+		var sites []site
+		for _, f := range p.withHelpers(cr, 1) {
+			for _, c := range findCalls(f, "p9p.openLocked") {
+				sites = append(sites, site{c, f})
+				if p.guardedHereOrAtCallers(c, isDirCond, 1) {
+					ok = true
+				}
 			}
 		}
 		r.Check(ok, "substitute", "session.Create: a created directory is opened through openLocked (Readdir)", cr.Pos(), "a created directory is left with the file returned by the file system instead of a Readdir")
 		// … and what is opened is the entry just created, not the parent
-		for _, c := range findCalls(cr, "p9p.openLocked") {
+		for _, st := range sites {
+			c := st.c
 			okEnt := false
 			if len(c.Call.Args) >= 2 {
 				if a, isA := c.Call.Args[1].(*ssa.Alloc); isA {
 					if flds, _, okF := allocFields(a); okF {
-						if ex, isEx := stripConv(flds["Ent"]).(*ssa.Extract); isEx && ex.Index == 0 {
-							if cc, isC := ex.Tuple.(*ssa.Call); isC && cc.Call.IsInvoke() && cc.Call.Method.Name() == "Create" {
+						ent := stripConv(flds["Ent"])
+						if isCreated(ent) {
+							okEnt = true
+						} else if prm, isP := ent.(*ssa.Parameter); isP && st.f != cr {
+							// the helper's parameter: the created entry at every call of the helper
+							if cs, exact := p.staticCallSites(st.f); exact && len(cs) > 0 {
 								okEnt = true
+								for _, hc := range cs {
+									idx := -1
+									for i, q := range st.f.Params {
+										if q == prm {
+											idx = i
+										}
+									}
+									if idx < 0 || idx >= len(hc.Call.Args) || !isCreated(hc.Call.Args[idx]) {
+										okEnt = false
+									}
+								}
 							}
 						}
 					}
